@@ -225,7 +225,8 @@ pub fn scientific_literal(input: ParseString) -> ParseResult<RealNumber> {
         (input, (exponent, Token::default()))
       }
       Err(err) => {return Err(err);}
-      _ => unreachable!(),
+      // a typed integer such as `3u8` is not an exponent
+      Ok(_) => {return Err(nom::Err::Error(ParseError::new(input, "Expects an untyped number as exponent")));}
     }
   };
   let ex_sign = match neg {
